@@ -265,15 +265,6 @@ Definition obj_encode (o : obj) : pyv :=
   | OModel m => model_encode strG m
   | _ => obj_to_dict o
   end.
-(* same enumeration order of what the key still takes in insertion order: the dependent-variable
-   and observation-transformation mappings (compartment graphs are encoded in a fixed order) *)
-Definition same_order (a b : obj) : bool :=
-  match a, b with
-  | OModel x, OModel y =>
-      list_eqb String.eqb (map fst (m_depvars strG x)) (map fst (m_depvars strG y))
-      && list_eqb String.eqb (map fst (m_obstrans strG x)) (map fst (m_obstrans strG y))
-  | _, _ => true end.
-
 (* the two objects hold the same t, compartments and flows (all that enters the differential
    equations) and, where == also looks at them, the same dosing compartments *)
 Definition cs_math_equal (x y : csys strG) : bool :=
@@ -309,7 +300,7 @@ Definition pverdict (c : pcase) : list nat :=
   tag (p_key_stable c) 15 ++
   (* different data => different key *)
   tag (match p_key_eq c with Some true => p_same_ds c | _ => true end) 21 ++
-  tag (same_order a b) 204 ++ tag (dosing_agree a b) 209 ++
+  tag (dosing_agree a b) 209 ++
   tag (derivs_free a && derivs_free b) 201 ++
   tag (obj_no_nan a && obj_no_nan b) 205.
 
